@@ -912,6 +912,29 @@ func c19ExplicitDefault(c *Ctx) {
 				}
 			}
 		}
+		// round trip under ONE option set: what Marshal emits with an option (true or false) Unmarshal accepts with the
+		// same option, and marshaling the result again gives the same text
+		for _, bv := range []bool{false, true} {
+			opts := append(base[:len(base):len(base)], bc.f(bv))
+			if c.Rng.IntN(2) == 0 { // also as a pre-joined set
+				opts = []json.Options{json.JoinOptions(opts...)}
+			}
+			m1, e1 := json.Marshal(v, opts...)
+			if e1 != nil {
+				continue
+			}
+			p1 := reflect.New(reflect.TypeOf(v))
+			u1 := json.Unmarshal(m1, p1.Interface(), opts...)
+			var m2 []byte
+			var e2 error
+			if u1 == nil {
+				m2, e2 = json.Marshal(p1.Elem().Interface(), opts...)
+			}
+			if u1 != nil || e2 != nil || !bytes.Equal(m1, m2) {
+				c.Violate("option-roundtrip", bc.name, m1, map[string]any{"value": fmt.Sprintf("%T", v), "option": fmt.Sprintf("%s(%v)", bc.name, bv), "unmarshal": fmt.Sprint(u1), "remarshal": fmt.Sprint(e2), "first": string(m1), "second": string(m2)})
+			}
+			c.Hit("option-roundtrip")
+		}
 		c.Case("xd:"+bc.name+":"+string(b0), true)
 	}
 }
